@@ -905,3 +905,42 @@ MA('C15', 'point_collocation drops out', DUF, 'point_collocation',
 MA('C15', '1-d meshgrid not unpacked', DUF,
    '_make_dual_use_func.dual_use_func', 'x = x[0][None, ...]', 'x = x[0]',
    'sampling[one_d')
+
+# ---- C02 -------------------------------------------------------------------
+NPYF = 'odl/space/npy_tensors.py'
+MA('C02', 'const inf-norm scaled by sqrt(c)', NPYF,
+   'NumpyTensorSpaceConstWeighting.norm',
+   'return float(self.const * _pnorm_default(x, self.exponent))',
+   'return float(np.sqrt(self.const) * _pnorm_default(x, self.exponent))',
+   'norm:const[p=inf')
+MA('C02', 'diag weights applied before the power', NPYF, '_pnorm_diagweight',
+   'xp = np.power(xp, p, out=xp)',
+   'xp *= w.ravel(order)\nxp = np.power(xp, p, out=xp)\nxp /= w.ravel(order)',
+   'norm:array[p=3')
+MA('C02', 'vdot arguments swapped', NPYF, '_inner_default',
+   'return np.vdot(x2.data.ravel(order), x1.data.ravel(order))',
+   'return np.vdot(x1.data.ravel(order), x2.data.ravel(order))',
+   'inner:const[p=2,C')
+MA('C02', 'weights ravelled in C order regardless of the data', NPYF,
+   '_pnorm_diagweight', 'xp *= w.ravel(order)', "xp *= w.ravel('C')",
+   '2dF', nth=1)
+MA('C02', 'array weights dropped from inner', NPYF,
+   'NumpyTensorSpaceArrayWeighting.inner',
+   'inner = _inner_default(x1 * self.array, x2)',
+   'inner = _inner_default(x1, x2)', 'inner:array')
+MA('C02', 'const dist p=2 uses c instead of sqrt(c)', NPYF,
+   'NumpyTensorSpaceConstWeighting.dist',
+   'return float(np.sqrt(self.const) * _norm_default(x1 - x2))',
+   'return float(self.const * _norm_default(x1 - x2))', 'dist:const[p=2')
+MA('C02', 'BLAS norm skips the last entry', NPYF, '_norm_default',
+   'norm = partial(nrm2, n=native(x.size))',
+   'norm = partial(nrm2, n=native(x.size - 1))', 'blas')
+MA('C02', 'generic-p const norm forgets the root of c', NPYF,
+   'NumpyTensorSpaceConstWeighting.norm',
+   'return float(self.const ** (1 / self.exponent) * _pnorm_default(x, self.exponent))',
+   'return float(self.const * _pnorm_default(x, self.exponent))',
+   'norm:const[p=3')
+MA('C02', 'inner defined for p != 2', NPYF,
+   'NumpyTensorSpaceConstWeighting.inner',
+   'if self.exponent != 2.0:...', 'if False:\n    pass\nelse:\n    inner = self.const * _inner_default(x1, x2)\n    return inner',
+   'inner:const[p=1')
